@@ -279,6 +279,10 @@ pub(crate) fn repair_corrupted_wal_segment(wal_dir: &Path, segment_id: usize) ->
 
 	// Create a repair directory for the new WAL file
 	let repair_dir = wal_dir.join("repair_temp");
+	// A previous repair may have been interrupted: never continue its output
+	if repair_dir.exists() {
+		fs::remove_dir_all(&repair_dir)?;
+	}
 	fs::create_dir_all(&repair_dir)?;
 
 	// Create a new Wal for writing the repaired data
